@@ -7,12 +7,12 @@ WT=$1; PATCH=$2; DSRC=$3; DDEST=$4; shift 4
 cd "$WT" || exit 9
 git checkout -q -- . ; 
 mkdir -p "$(dirname "$DDEST")"; cp "$DSRC" "$DDEST"
-echo "== demo on clean tree (expect pass)"; "$@" > /tmp/seed_demo_clean.log 2>&1; c1=$?; tail -3 /tmp/seed_demo_clean.log
+echo "== demo on clean tree (expect pass)"; "$@" > /tmp/seed_demo_clean${LOGTAG:-}.log 2>&1; c1=$?; tail -3 /tmp/seed_demo_clean${LOGTAG:-}.log
 git apply "$PATCH" || { echo "PATCH DOES NOT APPLY"; rm -f "$DDEST"; exit 8; }
-echo "== demo with patch (expect fail)"; "$@" > /tmp/seed_demo_mut.log 2>&1; c2=$?; tail -3 /tmp/seed_demo_mut.log
+echo "== demo with patch (expect fail)"; "$@" > /tmp/seed_demo_mut${LOGTAG:-}.log 2>&1; c2=$?; tail -3 /tmp/seed_demo_mut${LOGTAG:-}.log
 rm -f "$DDEST"
 echo "== suite with patch (expect 2010 pass)"
-cargo nextest run --workspace --no-fail-fast --tool-config-file pb:/w/lib/nextest.toml --profile pb --test-threads 8 --offline > /tmp/seed_suite.log 2>&1; c3=$?
-grep -E "Summary|FAIL " /tmp/seed_suite.log | head
+cargo nextest run --workspace --no-fail-fast --tool-config-file pb:/w/lib/nextest.toml --profile pb --test-threads 8 --offline > /tmp/seed_suite${LOGTAG:-}.log 2>&1; c3=$?
+grep -E "Summary|FAIL " /tmp/seed_suite${LOGTAG:-}.log | head
 git checkout -q -- .
 echo "RESULT demo_clean_rc=$c1 demo_mut_rc=$c2 suite_rc=$c3"
